@@ -180,6 +180,14 @@ def _code_lines(code):
     return out
 
 
+def all_hits():
+    """{file basename: sorted executed line numbers} of the package during the run"""
+    out = {}
+    for fn, ln in _hits:
+        out.setdefault(os.path.basename(fn), set()).add(ln)
+    return {k: sorted(v) for k, v in out.items()}
+
+
 def coverage_report(pid):
     """{anchor: {'lines': n, 'executed': k, 'not_executed': [line numbers]}} for the anchors of pid"""
     rep = {}
